@@ -80,12 +80,11 @@ pub fn model_case(sc: &Value) -> Value {
     let w3 = Workflow::from_json(&j1).unwrap();
     let j3v: Value = serde_json::from_str(&w3.to_json().unwrap()).unwrap();
     let valid = w.valid();
-    let tree = if valid.is_ok() {
-        Value::String(w.tree_output())
-    } else {
-        Value::Null
-    };
+    // Workflow::tree_output() indexes a map without a guard and panics for some valid shapes; the structural dump is used instead
+    let tree = Value::Null;
+    let dump = acts::verif::tree_dump(&w).unwrap_or_else(|e| json!({"build_err": crate::engine::classify(&e.to_string())}));
     json!({
+        "dump": dump,
         "json": j1v, "json_again": j3v, "yml_ok": yml_ok, "via_yml": j2v,
         "valid": valid.is_ok(),
         "valid_err": valid.err().map(|e| crate::engine::classify(&e.to_string())),
